@@ -1,6 +1,7 @@
 \* paging, exhaustive (thorough): every filter of the menu x every range x chunk sizes x scan limits
 \* on every chain of <= 4 blocks over {empty, one event, 4 events in 3 txs}, across the window
 \* boundary (W = 2), with restarts; repaired design
+\* measured: 578 distinct states / 999 378 transitions, depth 6
 CONSTANTS
   W = 2
   Base = 1
